@@ -28,6 +28,7 @@ type pureCase struct {
 	WriteSz  []int    `json:"write_sizes"`
 	Sched    string   `json:"sched"` // none | free | pct
 	Seed     int64    `json:"seed"`
+	Skip     bool     `json:"skip_blocks,omitempty"` // the skipBlocks option: incompressible / already compressed blocks are stored
 }
 
 type pureResult struct {
@@ -55,12 +56,12 @@ var pureBase sync.Map
 func runPureCase(c *pureCase) (res pureResult) {
 	data := mixedData(c.Mix, c.Blocks, int(c.BlockSz), c.Seed%5+1)
 	hint := hintFor(c.HintMode, len(data), c.BlockSz)
-	key := fmt.Sprintf("%s|%s|%d|%d|%v|%d|%d|%d", c.T, c.E, c.BlockSz, c.Checksum, c.Mix, c.Blocks, hint, c.Seed%5+1)
+	key := fmt.Sprintf("%s|%s|%d|%d|%v|%d|%d|%d|%v", c.T, c.E, c.BlockSz, c.Checksum, c.Mix, c.Blocks, hint, c.Seed%5+1, c.Skip)
 	var base []byte
 	if v, ok := pureBase.Load(key); ok {
 		base = v.([]byte)
 	} else {
-		b, st, err := kz.Compress(data, kz.Cfg{Transform: c.T, Entropy: c.E, BlockSize: c.BlockSz, Jobs: 1, Checksum: c.Checksum, Hint: hint}, nil)
+		b, st, err := kz.Compress(data, kz.Cfg{Transform: c.T, Entropy: c.E, BlockSize: c.BlockSz, Jobs: 1, Checksum: c.Checksum, Hint: hint, SkipBlocks: c.Skip}, nil)
 		if err != nil {
 			if st == kz.StageNew {
 				return pureResult{Kind: "rejected"}
@@ -71,7 +72,14 @@ func runPureCase(c *pureCase) (res pureResult) {
 		pureBase.Store(key, b)
 	}
 	sink := &kz.Sink{}
-	w, err := kio.NewWriter(sink, c.T, c.E, c.BlockSz, c.Jobs, c.Checksum, hint, false)
+	var w *kio.Writer
+	var err error
+	if c.Skip {
+		w, err = kio.NewWriterWithCtx(sink, map[string]any{"transform": c.T, "entropy": c.E, "blockSize": c.BlockSz, "jobs": c.Jobs,
+			"checksum": c.Checksum, "fileSize": hint, "headerless": false, "skipBlocks": true})
+	} else {
+		w, err = kio.NewWriter(sink, c.T, c.E, c.BlockSz, c.Jobs, c.Checksum, hint, false)
+	}
 	if err != nil {
 		return pureResult{Kind: "rejected"}
 	}
@@ -168,26 +176,32 @@ func c04(run *core.Run, replay string) {
 		t, e  string
 		bs    uint
 		heavy bool
+		skip  bool
 	}
 	cfgs := []cf{
-		{"NONE", "NONE", 4096, false}, {"BWT", "ANS0", 16384, false}, {"TEXT+RLT+LZ", "ANS0", 32768, false}, {"TEXT+UTF+PACK+MM+LZX", "HUFFMAN", 32768, false},
-		{"TEXT+UTF+EXE+PACK+MM+ROLZ", "NONE", 32768, false}, {"TEXT+UTF+BWT+RANK+ZRLT", "ANS0", 16384, false}, {"ROLZX", "FPAQ", 16384, false},
-		{"EXE+RLT+TEXT+UTF+DNA", "TPAQ", 8192, true}, {"LZP+TEXT+UTF+BWT+LZP", "CM", 8192, true}, {"DNA+LZ", "HUFFMAN", 4096, false}, {"MM+SRT", "RANGE", 8192, false},
+		{"NONE", "NONE", 4096, false, false}, {"BWT", "ANS0", 16384, false, false}, {"TEXT+RLT+LZ", "ANS0", 32768, false, false}, {"TEXT+UTF+PACK+MM+LZX", "HUFFMAN", 32768, false, false},
+		{"TEXT+UTF+EXE+PACK+MM+ROLZ", "NONE", 32768, false, false}, {"TEXT+UTF+BWT+RANK+ZRLT", "ANS0", 16384, false, false}, {"ROLZX", "FPAQ", 16384, false, false},
+		{"EXE+RLT+TEXT+UTF+DNA", "TPAQ", 8192, true, false}, {"LZP+TEXT+UTF+BWT+LZP", "CM", 8192, true, false}, {"DNA+LZ", "HUFFMAN", 4096, false, false}, {"MM+SRT", "RANGE", 8192, false, false},
 	}
 	// every transform on its own and the chains that end in / start with the run-length stages, on inputs whose tail block is incompressible
 	single := len(cfgs)
 	for _, t := range kz.Transforms[1:] {
-		cfgs = append(cfgs, cf{t, "NONE", 16384, false})
+		cfgs = append(cfgs, cf{t, "NONE", 16384, false, false})
 	}
-	cfgs = append(cfgs, cf{"BWT+RANK+ZRLT", "ANS0", 16384, false}, cf{"RLT+ZRLT", "HUFFMAN", 16384, false}, cf{"ZRLT+LZ", "NONE", 32768, false})
+	cfgs = append(cfgs, cf{"BWT+RANK+ZRLT", "ANS0", 16384, false, false}, cf{"RLT+ZRLT", "HUFFMAN", 16384, false, false}, cf{"ZRLT+LZ", "NONE", 32768, false, false})
 	// blocks larger than the 256 KiB default buffers with chains whose MaxEncodedLen exceeds the block size by more than 1/8
 	// (the task buffers are then grown inside the tasks)
-	cfgs = append(cfgs, cf{"EXE+LZ", "NONE", 262144, false}, cf{"TEXT+UTF+EXE+PACK+MM+ROLZ", "NONE", 524288, false}, cf{"EXE+PACK", "HUFFMAN", 393216, false}, cf{"MM+EXE", "ANS0", 262144, false})
+	cfgs = append(cfgs, cf{"EXE+LZ", "NONE", 262144, false, false}, cf{"TEXT+UTF+EXE+PACK+MM+ROLZ", "NONE", 524288, false, false}, cf{"EXE+PACK", "HUFFMAN", 393216, false, false}, cf{"MM+EXE", "ANS0", 262144, false, false})
+	// the skipBlocks option: the decision "store this block as is" must depend on the block alone (blocks that start with the
+	// magic number of a compressed format, incompressible blocks), not on which task or batch position handles it
+	skipFrom := len(cfgs)
+	cfgs = append(cfgs, cf{"LZ", "HUFFMAN", 8192, false, true}, cf{"TEXT+LZX", "ANS0", 16384, false, true}, cf{"BWT", "NONE", 8192, false, true}, cf{"ROLZX", "FPAQ", 16384, false, true})
 	mixes := [][]string{
 		{"dna", "text", "numeric", "text", "random", "text", "text", "dna"},
 		{"elfx86", "text", "cyrillic", "wav", "text", "base64", "runs", "magicmix", "utf8dirty", "html"},
 		{"text"},
 		{"random", "text", "zeros", "random", "html", "random"},
+		{"text", "magicmix", "magicmix", "random", "magicmix", "text", "magicmix"},
 	}
 	jobs := []uint{2, 3, 4, 8, 16, 64}
 	parts := [][]int{nil, {1}, {7, 4093, 13, 100003}, {-1}} // -1 => block aligned
@@ -198,7 +212,10 @@ func c04(run *core.Run, replay string) {
 			if mi == 2 && ci%3 != 0 {
 				continue
 			}
-			if ci >= single && mi != 3 && mi != 0 {
+			if (mi == 4) != (ci >= skipFrom) && !(ci >= skipFrom && mi == 3) {
+				continue // the magic-number mix goes with the skipBlocks configurations
+			}
+			if ci >= single && ci < skipFrom && mi != 3 && mi != 0 {
 				continue
 			}
 			nb := []int{9, 17, 25}[(ci+mi)%3]
@@ -221,7 +238,7 @@ func c04(run *core.Run, replay string) {
 						w = []int{int(c.bs)}
 					}
 					nsched := run.Pick(3, 12)
-					if ci >= single {
+					if ci >= single && ci < skipFrom {
 						nsched = run.Pick(2, 6)
 						if pi%2 == 1 {
 							continue
@@ -236,7 +253,7 @@ func c04(run *core.Run, replay string) {
 							continue
 						}
 						tcs = append(tcs, &pureCase{T: c.t, E: c.e, BlockSz: c.bs, Checksum: []uint{0, 32, 64}[(ci+ji)%3], Mix: mix, Blocks: nb, Jobs: j,
-							HintMode: hints[(ci+ji+pi+si)%len(hints)], WriteSz: w, Sched: sm, Seed: S*1000 + int64(ci*131+ji*17+pi*5+si)})
+							HintMode: hints[(ci+ji+pi+si)%len(hints)], WriteSz: w, Sched: sm, Seed: S*1000 + int64(ci*131+ji*17+pi*5+si), Skip: c.skip})
 					}
 				}
 			}
